@@ -15,7 +15,7 @@ def _is_valid_exemplar_metric(metric, sample):
         return True
     if metric.type in ('gaugehistogram') and sample.name.endswith('_bucket'):
         return True
-    if metric.type in ('histogram') and sample.name.endswith('_bucket') or sample.name == metric.name:
+    if metric.type in ('histogram') and (sample.name.endswith('_bucket') or sample.name == metric.name):
         return True
     return False
 
